@@ -164,7 +164,7 @@ def check(case, rec):
     ds[jac] = H.make_data(mjms[jac], nworld=n, nconmax=150, njmax=600)
     H.set_data(ds[jac], states)
     mjw.forward(ms[jac], ds[jac])
-  if any((H.overflow(ds[j]) & ~int(OT.ITERATIONS)).any() for j in ds):
+  if any((H.overflow_fwd(ds[j]) & ~int(OT.ITERATIONS)).any() for j in ds):
     rec.inconclusive += 1
     return
   if not (ms["sparse"].is_sparse and not ms["dense"].is_sparse):
